@@ -44,7 +44,7 @@ def legacy_images_desc(draw, versions=("1.0", "1.1")):
             for _ in range(n):
                 entries.append({"variant": variant, "arch": arch, "rec": record(arch, variant)})
         if layout[variant]["has_src"]:
-            for _ in range(draw(st.integers(1, 3))):
+            for _ in range(draw(st.integers(0, 3))):          # 0: the document says "src": []
                 entries.append({"variant": variant, "arch": "src", "rec": record("src", variant)})
     return {"version": version, "compose": draw(gen.compose_section_desc()), "layout": layout, "entries": entries}
 
